@@ -15,19 +15,26 @@ def main():
         print(__doc__)
         return 2
     if a[0] == "--prebuild":
+        # build the harnesses of every check registered in MANIFEST.json (or of the properties named on the command line)
         from concurrent.futures import ThreadPoolExecutor
-        mods = sorted(f[:-3] for f in os.listdir(os.path.join(os.path.dirname(os.path.abspath(__file__)), "checks"))
-                      if f.startswith("c") and f.endswith(".py"))
-        only = a[1:]
-        def one(m):
-            if only and m.upper() not in [x.upper() for x in only]:
-                return
-            mod = importlib.import_module("checks." + m)
-            if hasattr(mod, "prebuild"):
-                mod.prebuild()
+        here = os.path.dirname(os.path.abspath(__file__))
+        only = [x.upper() for x in a[1:]]
+        if not only:
+            with open(os.path.join(here, "MANIFEST.json")) as fh:
+                only = [c["property_id"].upper() for c in json.load(fh)["checks"]]
+        failed = []
+        def one(pid):
+            try:
+                mod = importlib.import_module("checks." + pid.lower())
+                if hasattr(mod, "prebuild"):
+                    mod.prebuild()
+            except BaseException as e:   # a failing build must not hide the others
+                failed.append((pid, repr(e)))
         with ThreadPoolExecutor(max_workers=4) as ex:
-            list(ex.map(one, mods))
-        return 0
+            list(ex.map(one, only))
+        for pid, e in failed:
+            sys.stderr.write("prebuild of %s failed: %s\n" % (pid, e))
+        return 1 if failed else 0
     prop = a[0].upper()
     mod = importlib.import_module("checks." + prop.lower())
     if len(a) >= 3 and a[1] == "--replay":
